@@ -758,3 +758,125 @@ def meas_noise(ctx):
                    why='%s (with_altitude=%s): the noise matrix returned with a %d-row residual is '
                        'not the matching block of the stored one' % (c.name, wa, k))
     ctx.floor('MEAS-NOISE', n, 6, 'noise-matrix obligations')
+
+
+# ------------------------------------------------------------------ MEAS-SIM
+class _SimHooks:
+    """Evaluate a measurement simulator on a symbolic Trajectory table: the random state yields
+    one symbolic 3-vector of unit errors per row (scaled by the expansion parameter '@e'), the
+    attitude matrix is the same symbolic C the measurement model is evaluated with, and the
+    returned DataFrame is a record column -> value."""
+
+    def __init__(self, C):
+        self.C = C
+        self.draws = 0
+        self.frame = None
+
+    def call(self, ev, q, node, args, kwargs, env):
+        A = ev.A
+        if q is not None and q.endswith('check_random_state'):
+            return Opaque('rng')
+        if q == 'pyins.transform.mat_from_rph':
+            return self.C
+        if q == 'pandas.DataFrame':
+            data = kwargs.get('data', args[0] if args else None)
+            cols = kwargs.get('columns', args[2] if len(args) > 2 else None)
+            if isinstance(data, SArray) and len(data.shape) == 1 and isinstance(cols, (list, tuple)) \
+                    and len(cols) == data.shape[0] and all(isinstance(c, str) for c in cols):
+                self.frame = {c: data.get((i,)) for i, c in enumerate(cols)}
+                return Rec(dict(self.frame), 'frame')
+            raise Unsupported('DataFrame construction not recognised')
+        return NotImplemented
+
+    def attr(self, ev, base, a, node):
+        if isinstance(base, Opaque) and base.tag == 'rng' and a in ('randn', 'standard_normal',
+                                                                   'normal'):
+            def draw(*shape, **kw):
+                if a != 'randn':
+                    shape = kw.get('size', shape[-1] if shape else ())
+                    shape = tuple(shape) if isinstance(shape, (tuple, list)) else (shape,)
+                if len(shape) != 2 or shape[1] != 3:
+                    raise Unsupported('random draw of shape %r' % (shape,))
+                self.draws += 1
+                A = ev.A
+                return SArray((3,), {(i,): A.mul(A.sym('@e'), A.sym('n%d' % i))
+                                     for i in range(3)}, None, True)
+            return draw
+        return None
+
+
+def meas_sim(ctx):
+    """Simulator and measurement model composed: the residual of a simulated measurement at the
+    true state is minus the injected error (C06: 'noise-free simulated measurements evaluated at
+    the true state give a zero residual and an injected error e gives residual -e')."""
+    ctx.rule('MEAS-SIM', 'compute_matrices at the true state on data from the matching '
+             'sim.generate_*_measurements: 0 without error, and to first order -+ error_sd * (unit '
+             'error of the same component) - the sign of a zero-mean random error is not '
+             'observable (symbolic, all states)')
+    repo = ctx.repo
+    pairs = [('sim.generate_position_measurements', 'measurements.Position'),
+             ('sim.generate_ned_velocity_measurements', 'measurements.NedVelocity'),
+             ('sim.generate_body_velocity_measurements', 'measurements.BodyVelocity')]
+    n = 0
+    for gen, cq in pairs:
+        g = repo.function(gen)
+        c = repo.klass(cq)
+        m = c.methods.get('compute_matrices')
+        ctx.need(m is not None, '%s.compute_matrices missing' % cq)
+        try:
+            ev, ret, em = _eval_measurement(ctx, c, m, True, False, False)
+        except Unsupported as e:
+            raise AnalysisError('%s.compute_matrices not analysable: %s' % (cq, e))
+        ctx.need(isinstance(ret, tuple) and len(ret) == 3 and isinstance(ret[0], SArray),
+                 '%s: result is not (z, H, R)' % cq)
+        z = ret[0]
+        A = ev.A
+        h = _SimHooks(ev.hooks.C)
+        ev2 = SymEval(repo, A, hooks=h)
+        ev2.stacked = ev2.columns_are_series = True
+        cols = {k: A.sym(k) for k in repo.const('util.TRAJECTORY_COLS')}
+        traj = Rec(cols, 'frame')
+        ctx.need(len(g.params) >= 2, '%s signature' % gen)
+        sd = A.sym('error_sd')
+        try:
+            ev2.call_function(g, [traj, sd], {})
+        except Unsupported as e:
+            raise AnalysisError('%s not analysable: %s' % (gen, e))
+        ctx.need(h.frame is not None and h.draws == 1,
+                 '%s: result table / single random draw not recognised' % gen)
+        mp = {}
+        used = sorted(a for k in range(z.shape[0]) for a in A.atoms_of(z.get((k,)))
+                      if a.startswith('meas_'))
+        missing = [a for a in used if a[5:] not in h.frame]
+        ctx.need(not missing, '%s reads columns %s that %s does not produce'
+                 % (cq, missing, gen))
+        for a in used:
+            mp[a] = ev2.rat(h.frame[a[5:]])
+        ok0 = ok1 = True
+        bad = ''
+        taken = set()
+        for k in range(z.shape[0]):
+            zz = A.subst(z.get((k,)), mp)
+            z0 = A.subst(zz, {'@e': A.const(0)})
+            z1 = A.subst(A.diff(zz, '@e'), {'@e': A.const(0)})
+            if not A.is_zero(z0):
+                ok0 = False
+                bad = bad or 'component %d without error is %s' % (k, A.key(z0)[:100])
+            # sign and order of independent zero-mean unit errors are not observable: each
+            # component must be +- error_sd * (one unit error of its own)
+            hit = [j for j in range(3) if j not in taken and
+                   (A.eq(z1, A.mul(sd, A.sym('n%d' % j))) or
+                    A.eq(z1, A.neg(A.mul(sd, A.sym('n%d' % j)))))]
+            if hit:
+                taken.add(hit[0])
+            else:
+                ok1 = False
+                bad = bad or 'component %d responds to the unit errors by %s, expected ' \
+                             '-+ error_sd * (a unit error of its own)' % (k, A.key(z1)[:100])
+        n += 1
+        ctx.ob('MEAS-SIM', ok0 and ok1, None,
+               '%s on data of %s: residual = -injected error' % (c.name, g.name), f=g,
+               node=g.node, key='sim-' + c.name,
+               why='the residual of %s at the true state, on data produced by %s, is not minus '
+                   'the injected error: %s' % (c.name, g.name, bad))
+    ctx.floor('MEAS-SIM', n, 3, 'simulator / model pairs')
